@@ -49,7 +49,7 @@ Qed.
 (* pinned code: client 2's create succeeds, its mapping is never deleted, yet the late second delete of mapping 1
    removes client 2's index entry: the name resolves to nothing and is claimable by a third party *)
 Lemma pinned_delete_reclaim_refuted :
-  let s := drun false true false true true none_legacy none_legacy empty_store race_threads race_sched_pinned in
+  let s := drun false true false true true true none_legacy none_legacy empty_store race_threads race_sched_pinned in
   map out (snd s) = [[RDeleted; RCreated 1]; [RDeleted]; [RCreated 2]; [RErr ENotFound]] /\
   recs (fst s) 2 = Some {| r_name := host_a; r_client := 2; r_target := 22; r_status := StActive; r_exp := 0 |} /\
   idx (fst s) host_a = None /\
@@ -58,7 +58,7 @@ Proof. vm_compute. repeat split; reflexivity. Qed.
 
 (* the same callers on the repaired code, same race: the late delete finds the index pointing elsewhere and leaves it *)
 Lemma fixed_delete_reclaim_run :
-  let s := drun true true true true true none_legacy none_legacy empty_store race_threads race_sched_fixed in
+  let s := drun true true true true true true none_legacy none_legacy empty_store race_threads race_sched_fixed in
   map out (snd s) = [[RDeleted; RCreated 1]; [RDeleted]; [RCreated 2]; [RRouted 1 host_a_port 2 2 22]] /\
   idx (fst s) host_a = Some 2 /\
   stale_release (log (fst s)) = false.
@@ -71,7 +71,7 @@ Definition dup_sched : list nat := [0;1;0;1; 0;0;0; 1;1;1; 2;2]%nat.
 
 (* both creates draw id 1; client 2's record overwrites client 1's; "a.t.io" — claimed by client 1 — routes to client 2 *)
 Lemma nonatomic_incr_refuted :
-  let s := drun true false false true true none_legacy none_legacy empty_store dup_threads dup_sched in
+  let s := drun true false false true true true none_legacy none_legacy empty_store dup_threads dup_sched in
   map out (snd s) = [[RCreated 1]; [RCreated 1]; [RRouted 1 host_a 1 2 22]] /\
   In (EvClaim host_a 1 1) (log (fst s)).
 Proof. vm_compute. split; [reflexivity|]. repeat (first [left; reflexivity | right]). Qed.
@@ -83,7 +83,7 @@ Definition reset_threads : list thr :=
 Definition reset_sched : list nat := [0;0;0;0; 1; 2;2;2;2; 3;3]%nat.
 
 Lemma counter_reset_refuted :
-  let s := drun true true false true true none_legacy none_legacy empty_store reset_threads reset_sched in
+  let s := drun true true false true true true none_legacy none_legacy empty_store reset_threads reset_sched in
   map out (snd s) = [[RCreated 1]; [RReset]; [RCreated 1]; [RRouted 1 host_a 1 2 22]] /\
   In (EvClaim host_a 1 1) (log (fst s)).
 Proof. vm_compute. split; [reflexivity|]. repeat (first [left; reflexivity | right]). Qed.
@@ -92,7 +92,7 @@ Proof. vm_compute. split; [reflexivity|]. repeat (first [left; reflexivity | rig
    passing the default data TTL changes nothing, the second create draws id 2 and "a.t.io" still routes to client 1 *)
 Definition reset_sched_fixed : list nat := [0;0;0;0;0; 1; 2;2;2;2;2; 3;3]%nat.
 Lemma counter_reset_harmless_run :
-  let s := drun true true true true true none_legacy none_legacy empty_store reset_threads reset_sched_fixed in
+  let s := drun true true true true true true none_legacy none_legacy empty_store reset_threads reset_sched_fixed in
   map out (snd s) = [[RCreated 1]; [RReset]; [RCreated 2]; [RRouted 1 host_a 1 1 11]] /\
   cttl (fst s) = false /\ next (fst s) = 2.
 Proof. vm_compute. repeat split; reflexivity. Qed.
@@ -110,7 +110,7 @@ Definition cleanup_sched : list nat :=
   (repeat 0 7 ++ repeat 1 5 ++ [2; 3] ++ repeat 2 12 ++ repeat 3 1 ++ repeat 2 2 ++ repeat 4 4)%nat.
 
 Lemma cleanup_run :
-  let s := drun true true true true true none_legacy none_legacy empty_store cleanup_threads cleanup_sched in
+  let s := drun true true true true true true none_legacy none_legacy empty_store cleanup_threads cleanup_sched in
   map out (snd s) = [[RUpdated; RCreated 1]; [RCreated 2]; [RErr EValidation; RCleaned 1; RErr EForbidden];
                      [RDeleted; RErr EForbidden]; [RRouted 1 (full_domain nm_b nm_base) 2 2 22; RErr ENotFound]] /\
   idx (fst s) host_a = None /\ idx (fst s) (full_domain nm_b nm_base) = Some 2 /\ recs (fst s) 1 = None /\
@@ -124,7 +124,7 @@ Section Solo.
   Fixpoint solo (k : nat) (t : thr) (s : shared) : thr * shared :=
     match k with
     | O => (t, s)
-    | S k' => let '(t', s') := dstep true true true true true reg cloud t s in solo k' t' s'
+    | S k' => let '(t', s') := dstep true true true true true true reg cloud t s in solo k' t' s'
     end.
 
   Lemma delete_alone c i m rest h o s :
@@ -189,11 +189,11 @@ Section Solo.
   Qed.
 
   Lemma sinv_step c i n t s :
-    SInv c i n t s -> SInv c i n (fst (dstep true true true true true reg cloud t s)) (snd (dstep true true true true true reg cloud t s)).
+    SInv c i n t s -> SInv c i n (fst (dstep true true true true true true reg cloud t s)) (snd (dstep true true true true true true reg cloud t s)).
   Proof.
     intros [Hst Hti]. pose proof Hst as (Hidx & Hrec & Hown). pose proof Hti as (Hc & Hops & Hout & Hpc).
     unfold dstep, decide. destruct (next_fault t) as [f fs].
-    destruct (pc t) as [| | | | | |k who j n' st e| | | | |j| | | | |] eqn:Epc; cbn [pcI] in Hpc; try contradiction.
+    destruct (pc t) as [| | | | | |k who j n' st e| | | | |j| | | | | |] eqn:Epc; cbn [pcI] in Hpc; try contradiction.
     - (* Idle *)
       destruct (ops t) as [|o rest] eqn:Eo.
       { cbn [fst snd exec]. split; [exact Hst|]. unfold TI. rewrite Epc, Eo. cbn. repeat split; auto. }
@@ -253,7 +253,7 @@ Section Solo.
   Lemma sinv_solo c i n k : forall t s, SInv c i n t s -> SInv c i n (fst (solo k t s)) (snd (solo k t s)).
   Proof.
     induction k as [|k IH]; intros t s H; cbn; [exact H|].
-    pose proof (sinv_step c i n t s H) as H1. destruct (dstep true true true true true reg cloud t s) as [t' s']. cbn in H1.
+    pose proof (sinv_step c i n t s H) as H1. destruct (dstep true true true true true true reg cloud t s) as [t' s']. cbn in H1.
     now apply IH.
   Qed.
 
@@ -301,7 +301,7 @@ Definition fault_sched : list nat := (repeat 0 25 ++ repeat 1 5 ++ repeat 2 2)%n
 (* record deleted BEFORE the index entry (fault on the 4th call of the removal = Get index): the record is gone, the
    index entry stays; the retry finds no record and reports success; the name is owned by a ghost — client 2 is refused *)
 Lemma record_before_index_refuted :
-  let s := drun true true true false true none_legacy none_legacy empty_store (fault_threads 3) fault_sched in
+  let s := drun true true true false true true none_legacy none_legacy empty_store (fault_threads 3) fault_sched in
   map out (snd s) = [[RDeleted; RErr EStorage; RCreated 1]; [RErr EExists]; [RErr ENotFound]] /\
   idx (fst s) host_a = Some 1 /\ recs (fst s) 1 = None.
 Proof. vm_compute. repeat split; reflexivity. Qed.
@@ -309,7 +309,7 @@ Proof. vm_compute. repeat split; reflexivity. Qed.
 (* the code's order (index entry first), same fault position in the removal (now the Delete of the index): the failed delete
    leaves the record, the retry finishes it, client 2 claims the name and is routed *)
 Lemma index_before_record_run :
-  let s := drun true true true true true none_legacy none_legacy empty_store (fault_threads 3) fault_sched in
+  let s := drun true true true true true true none_legacy none_legacy empty_store (fault_threads 3) fault_sched in
   map out (snd s) = [[RDeleted; RErr EStorage; RCreated 1]; [RCreated 2]; [RRouted 1 host_a 2 2 22]] /\
   idx (fst s) host_a = Some 2 /\ recs (fst s) 1 = None.
 Proof. vm_compute. repeat split; reflexivity. Qed.
@@ -334,7 +334,7 @@ Definition sources_threads : list thr :=
    registry's entry of another client for that name; names the repository does not hold are answered by the registry, then
    cloud control (revoked: rejected); an IPv6 literal resolves to nothing *)
 Lemma three_sources_run :
-  let s := drun true true true true true legacy_reg legacy_cloud empty_store sources_threads (repeat 0 12 ++ repeat 1 6)%nat in
+  let s := drun true true true true true true legacy_reg legacy_cloud empty_store sources_threads (repeat 0 12 ++ repeat 1 6)%nat in
   map out (snd s) = [[RErr EUnavailable; RUpdated; RRouted 1 host_a_port 1 1 11; RCreated 1];
                      [RErr ENotFound; RErr EForbidden; RRouted 2 (full_domain nm_b nm_base ++ [58; 56; 48]) 71 7 701]].
 Proof. vm_compute. reflexivity. Qed.
@@ -348,13 +348,13 @@ Definition faulted_lookup_threads : list thr :=
 (* storage errors falling through to the legacy sources like "not found": the request is routed to client 7 — twice: once
    with the index read failing, once with the record read failing *)
 Lemma fallthrough_on_error_refuted :
-  let s := drun true true true true false legacy_reg legacy_cloud empty_store faulted_lookup_threads (repeat 0 5 ++ repeat 1 3)%nat in
+  let s := drun true true true true false true legacy_reg legacy_cloud empty_store faulted_lookup_threads (repeat 0 5 ++ repeat 1 3)%nat in
   map out (snd s) = [[RCreated 1]; [RRouted 2 host_a 72 7 702; RRouted 2 host_a 72 7 702]].
 Proof. vm_compute. reflexivity. Qed.
 
 (* the code: both requests are rejected with the storage error *)
 Lemma error_stops_lookup_run :
-  let s := drun true true true true true legacy_reg legacy_cloud empty_store faulted_lookup_threads (repeat 0 5 ++ repeat 1 3)%nat in
+  let s := drun true true true true true true legacy_reg legacy_cloud empty_store faulted_lookup_threads (repeat 0 5 ++ repeat 1 3)%nat in
   map out (snd s) = [[RCreated 1]; [RErr EStorage; RErr EStorage]].
 Proof. vm_compute. reflexivity. Qed.
 
@@ -367,7 +367,7 @@ Definition adapter_threads : list thr :=
     init_thr 2 [OCreate nm_a nm_base 22; OUpdate 0 StActive 9 22] [];
     init_thr 9 [OLookup host_a 5] [] ].
 Lemma adapter_expiry_run :
-  let s := drun true true true true true none_legacy none_legacy empty_store adapter_threads
+  let s := drun true true true true true true none_legacy none_legacy empty_store adapter_threads
                 (repeat 0 7 ++ repeat 1 14 ++ repeat 2 7 ++ repeat 3 2)%nat in
   map out (snd s) = [[RUpdated; RCreated 1]; [RCleaned 1; RErr EForbidden; RRouted 1 host_a 1 1 11];
                      [RUpdated; RCreated 2]; [RRouted 1 host_a 2 2 22]].
@@ -383,7 +383,7 @@ Definition wrapped_threads : list thr :=
     init_thr 9 [OLookup host_a 5] [] ].
 Lemma negative_expiry_run :
   (adapter_expiry 5 max_int64 < 0)%Z /\
-  let s := drun true true true true true none_legacy none_legacy empty_store wrapped_threads
+  let s := drun true true true true true true none_legacy none_legacy empty_store wrapped_threads
                 (repeat 0 7 ++ repeat 1 12 ++ repeat 2 5 ++ repeat 3 2)%nat in
   map out (snd s) = [[RUpdated; RCreated 1]; [RCleaned 1; RErr EForbidden]; [RCreated 2]; [RRouted 1 host_a 2 2 22]].
 Proof. split; vm_compute; reflexivity. Qed.
@@ -394,3 +394,24 @@ Lemma nonpositive_never_refuted :
   let r := {| r_name := host_a; r_client := 1; r_target := 11; r_status := StActive; r_exp := adapter_expiry 5 max_int64 |} in
   is_expired_nonpositive_never r 5 = false /\ is_expired r 5 = true /\ is_active r 5 = false.
 Proof. vm_compute. repeat split; reflexivity. Qed.
+
+(* ---- a repository-level update whose payload names ANOTHER client ----------------------------------------------------------------
+   client 1 owns "a.t.io"; caller 2 reads the record and sends it back with client_id 2 and its own target *)
+Definition forged_threads : list thr :=
+  [ init_thr 1 [OCreate nm_a nm_base 11] [];
+    init_thr 2 [OUpdateF 1 (Some 2%Z) None StActive 0 66] [];
+    init_thr 9 [OLookup host_a 5] [];
+    init_thr 1 [ODelete (Abs 1)] [] ].
+Definition forged_sched : list nat := (repeat 0 5 ++ repeat 1 3 ++ repeat 2 2 ++ repeat 3 7)%nat.
+
+(* without the client_id comparison the update is accepted: the name now routes to client 2's target and its owner is refused *)
+Lemma update_without_client_check_refuted :
+  let s := drun true true true true true false none_legacy none_legacy empty_store forged_threads forged_sched in
+  map out (snd s) = [[RCreated 1]; [RUpdated]; [RRouted 1 host_a 1 2 66]; [RErr EForbidden]].
+Proof. vm_compute. reflexivity. Qed.
+
+(* the code: the forged update is refused, the name keeps routing to client 1, which can delete its mapping *)
+Lemma update_with_client_check_run :
+  let s := drun true true true true true true none_legacy none_legacy empty_store forged_threads forged_sched in
+  map out (snd s) = [[RCreated 1]; [RErr EInvalidReq]; [RRouted 1 host_a 1 1 11]; [RDeleted]].
+Proof. vm_compute. reflexivity. Qed.
